@@ -460,3 +460,71 @@ Proof.
   unfold sess_expected. rewrite bytes_eqb_refl. unfold quic_accepts.
   destruct p as [|x p]; [contradiction|]. intros H. apply bytes_eqb_spec in H. auto.
 Qed.
+
+(* ---- roles in the negotiation loop ---- *)
+Lemma nstep_offerer_out failed e x :
+  In x (snd (nstep true failed e)) -> x = TxOffer \/ x = Fail.
+Proof.
+  destruct e as [|k ok|ok|ok|]; cbn [nstep]; destruct failed; cbn; try tauto.
+  - destruct k, ok; cbn; intuition.
+  - destruct ok; cbn; intuition.
+  - destruct ok; cbn; intuition.
+Qed.
+
+Lemma nstep_answerer_out failed e x :
+  In x (snd (nstep false failed e)) -> x = TxAnswer \/ x = TxRequestOffer \/ x = Fail.
+Proof.
+  destruct e as [|k ok|ok|ok|]; cbn [nstep]; destruct failed; cbn; try tauto.
+  - intuition.
+  - destruct k, ok; cbn; intuition.
+  - destruct ok; cbn; intuition.
+  - intuition.
+Qed.
+
+Lemma nrun_offerer evs : forall failed x, In x (nrun true failed evs) -> x = TxOffer \/ x = Fail.
+Proof.
+  induction evs as [|e r IH]; intros failed x; cbn [nrun]; [intros []|].
+  destruct (nstep true failed e) as [f' out] eqn:E. intros H. apply in_app_or in H. destruct H as [H|H].
+  - apply (nstep_offerer_out failed e). rewrite E. exact H.
+  - eapply IH, H.
+Qed.
+
+Lemma nrun_answerer evs : forall failed x,
+  In x (nrun false failed evs) -> x = TxAnswer \/ x = TxRequestOffer \/ x = Fail.
+Proof.
+  induction evs as [|e r IH]; intros failed x; cbn [nrun]; [intros []|].
+  destruct (nstep false failed e) as [f' out] eqn:E. intros H. apply in_app_or in H. destruct H as [H|H].
+  - apply (nstep_answerer_out failed e). rewrite E. exact H.
+  - eapply IH, H.
+Qed.
+
+Lemma offerer_never_answers evs failed :
+  ~ In TxAnswer (nrun true failed evs) /\ ~ In TxRequestOffer (nrun true failed evs).
+Proof. split; intros H; apply nrun_offerer in H; destruct H; discriminate. Qed.
+
+Lemma answerer_never_offers evs failed : ~ In TxOffer (nrun false failed evs).
+Proof. intros H; apply nrun_answerer in H; destruct H as [H|[H|H]]; discriminate. Qed.
+
+(* nothing is emitted after a failure until the tracker is restarted *)
+Lemma failed_silent offerer evs :
+  ~ In Restart evs -> nrun offerer true evs = [].
+Proof.
+  induction evs as [|e r IH]; intros H; [reflexivity|]. cbn [nrun].
+  destruct e; try (cbn [nstep app]; apply IH; intros C; apply H; right; exact C).
+  exfalso. apply H. left. reflexivity.
+Qed.
+
+(* of two distinct peers running the loop against each other at most one side
+   ever transmits an offer, and at most one side ever transmits an answer *)
+Lemma one_offer_side a b evs1 evs2 f1 f2 :
+  a <> b ->
+  ~ (In TxOffer (nrun (tracker_offerer a b) f1 evs1) /\ In TxOffer (nrun (tracker_offerer b a) f2 evs2)) /\
+  ~ (In TxAnswer (nrun (tracker_offerer a b) f1 evs1) /\ In TxAnswer (nrun (tracker_offerer b a) f2 evs2)).
+Proof.
+  intros H. pose proof (offerer_exclusive a b H) as HX.
+  destruct (tracker_offerer a b), (tracker_offerer b a); try discriminate HX; split; intros [H1 H2].
+  - eapply answerer_never_offers; eauto.
+  - eapply (proj1 (offerer_never_answers _ _)); eauto.
+  - eapply answerer_never_offers; eauto.
+  - eapply (proj1 (offerer_never_answers _ _)); eauto.
+Qed.
